@@ -79,24 +79,25 @@ Lemma open_shape cfg k tcp env evs r : open_connection cfg k tcp env = (evs, r) 
   (r = OpenNoSocket /\ evs = [ESocketFail]) \/
   (r = OpenFailedClosed /\ exists F, fresh_only k F /\
      (evs = ESocket k tcp :: F ++ [EClose k] \/
-      evs = ESocket k tcp :: F ++ [EConnect k true; EGetsockname k; EClose k])) \/
+      evs = ESocket k tcp :: F ++ [EConnect k true] ++ opt_ev (has_gsn cfg) (EGetsockname k) ++ [EClose k])) \/
   (exists F flags tfo, r = OpenOk (mkcs tcp PConnected true flags 0 0 0 tfo false) /\ fresh_only k F /\
-     evs = ESocket k tcp :: F ++ [EConnect k true; EGetsockname k] ++ notify cfg k 0 flags /\
+     evs = ESocket k tcp :: F ++ [EConnect k true] ++ opt_ev (has_gsn cfg) (EGetsockname k) ++ notify cfg k 0 flags /\
      (flags = 0 \/ flags = 1 \/ flags = 3)).
 Proof.
   unfold open_connection. intros H.
   assert (Fs : forall b, fresh_only k (opt_ev b (ESetsockopt k))) by (intros; apply fresh_opt; auto).
   assert (Fb : forall b, fresh_only k (opt_ev b (EBind k))) by (intros; apply fresh_opt; auto).
-  set (a1 := opt_ev (opt_sndbuf cfg) (ESetsockopt k)) in *.
-  set (a2 := opt_ev (opt_rcvbuf cfg) (ESetsockopt k)) in *.
-  set (a3 := opt_ev (opt_dev cfg) (ESetsockopt k)) in *.
-  set (a4 := opt_ev (opt_bind cfg) (EBind k)) in *.
-  set (a5 := opt_ev tcp (ESetsockopt k)) in *.
+  set (a1 := opt_ev (opt_sndbuf cfg && sockopt_visible cfg) (ESetsockopt k)) in *.
+  set (a2 := opt_ev (opt_rcvbuf cfg && sockopt_visible cfg) (ESetsockopt k)) in *.
+  set (a3 := opt_ev (opt_dev cfg && sockopt_visible cfg) (ESetsockopt k)) in *.
+  set (a4 := opt_ev (opt_bind cfg && has_bind cfg) (EBind k)) in *.
+  set (a5 := opt_ev (tcp && sockopt_visible cfg) (ESetsockopt k)) in *.
+  set (g := opt_ev (has_gsn cfg) (EGetsockname k)) in *.
   set (a6 := repeat (EConnect k false) (oe_intr env)) in *.
   assert (F1 : fresh_only k a1) by apply Fs. assert (F2 : fresh_only k a2) by apply Fs.
   assert (F3 : fresh_only k a3) by apply Fs. assert (F4 : fresh_only k a4) by apply Fb.
   assert (F5 : fresh_only k a5) by apply Fs. assert (F6 : fresh_only k a6) by apply fresh_repeat.
-  clearbody a1 a2 a3 a4 a5 a6.
+  clearbody a1 a2 a3 a4 a5 a6 g.
   destruct (negb (oe_socket_ok env)).
   { inversion H; subst. left. auto. }
   destruct (opt_sndbuf cfg && match oe_sndbuf env with SrFail => true | _ => false end).
@@ -104,20 +105,20 @@ Proof.
   destruct (opt_rcvbuf cfg && match oe_rcvbuf env with SrFail => true | _ => false end).
   { inversion H; subst. right; left. split; auto. exists (a1 ++ a2). split; [fresh_split; auto|].
     left. cbn [app]. rewrite <- ?app_assoc. reflexivity. }
-  destruct (opt_bind cfg && negb (oe_bind_ok env)).
+  destruct (opt_bind cfg && has_bind cfg && negb (oe_bind_ok env)).
   { inversion H; subst. right; left. split; auto. exists (a1 ++ a2 ++ a3 ++ a4). split; [fresh_split; auto|].
     left. cbn [app]. rewrite <- ?app_assoc. reflexivity. }
   assert (Hfl : let flags := if tcp && oe_tfo_ok env then 0 else Z.lor ARES_CONN_STATE_READ (if tcp then ARES_CONN_STATE_WRITE else 0) in
                 flags = 0 \/ flags = 1 \/ flags = 3).
   { destruct (tcp && oe_tfo_ok env); auto. destruct tcp; cbn; auto. }
   destruct (oe_connect env) eqn:Ec.
-  - destruct (negb (oe_getsockname_ok env) && negb (tcp && oe_tfo_ok env)).
+  - destruct (has_gsn cfg && negb (oe_getsockname_ok env) && negb (tcp && oe_tfo_ok env)).
     + inversion H; subst. right; left. split; auto. exists (a1 ++ a2 ++ a3 ++ a4 ++ a5 ++ a6). split; [fresh_split; auto|].
       right. cbn [app]. rewrite <- ?app_assoc. reflexivity.
     + inversion H; subst. right; right. eexists (a1 ++ a2 ++ a3 ++ a4 ++ a5 ++ a6), _, _.
       split; [reflexivity|]. split; [fresh_split; auto|]. split; [|exact Hfl].
       cbn [app]. rewrite <- ?app_assoc. reflexivity.
-  - destruct (negb (oe_getsockname_ok env) && negb (tcp && oe_tfo_ok env)).
+  - destruct (has_gsn cfg && negb (oe_getsockname_ok env) && negb (tcp && oe_tfo_ok env)).
     + inversion H; subst. right; left. split; auto. exists (a1 ++ a2 ++ a3 ++ a4 ++ a5 ++ a6). split; [fresh_split; auto|].
       right. cbn [app]. rewrite <- ?app_assoc. reflexivity.
     + inversion H; subst. right; right. eexists (a1 ++ a2 ++ a3 ++ a4 ++ a5 ++ a6), _, _.
@@ -298,6 +299,13 @@ Section Sim.
     intros Hp. unfold mon_step, on_sock. cbn [mn_destroyed mn_socks]. rewrite nth_error_last, Hp. reflexivity.
   Qed.
 
+  Lemma run_gsn_opt_last l s b rest : ms_phase s = PConnected ->
+    mon_run cfg (mkmon (l ++ [s]) false) (opt_ev b (EGetsockname (length l)) ++ rest)
+    = mon_run cfg (mkmon (l ++ [s]) false) rest.
+  Proof.
+    intros Hp. destruct b; cbn [opt_ev app mon_run]; [|reflexivity]. rewrite step_gsn_last by exact Hp. reflexivity.
+  Qed.
+
   (* opening a connection *)
   Lemma open_run s tcp env evs r :
     st_destroyed s = false -> open_connection cfg (length (st_socks s)) tcp env = (evs, r) ->
@@ -326,8 +334,8 @@ Section Sim.
       + erewrite mon_run_app by (apply run_fresh; [reflexivity|exact HF]).
         cbn [mon_run]. rewrite step_close_last by (cbn; auto; discriminate). reflexivity.
       + erewrite mon_run_app by (apply run_fresh; [reflexivity|exact HF]).
-        cbn [mon_run]. rewrite step_connect_last by reflexivity. cbn [ms_tcp ms_ntx ms_watch ms_stopped].
-        rewrite step_gsn_last by reflexivity.
+        cbn [app mon_run]. rewrite step_connect_last by reflexivity. cbn [ms_tcp ms_ntx ms_watch ms_stopped].
+        rewrite run_gsn_opt_last by reflexivity. cbn [mon_run].
         rewrite step_close_last by (cbn; auto; discriminate). reflexivity.
     - set (l := map (abs_sock cfg) (st_socks s)).
       assert (Hlen : length l = length (st_socks s)) by (unfold l; apply map_length).
@@ -338,7 +346,7 @@ Section Sim.
       + cbn [mon_run]. rewrite Hstart. rewrite <- Hlen.
         erewrite mon_run_app by (apply run_fresh; [reflexivity|exact HF]).
         cbn [app mon_run]. rewrite step_connect_last by reflexivity. cbn [ms_tcp ms_ntx ms_watch ms_stopped].
-        rewrite step_gsn_last by reflexivity.
+        rewrite run_gsn_opt_last by reflexivity.
         set (m1 := mkmon (l ++ [mkms tcp PConnected 0 0 false]) false).
         rewrite (notify_run m1 (length l) (mkms tcp PConnected 0 0 false) 0 flags)
           by (unfold m1; cbn [mn_socks mn_destroyed];
@@ -438,8 +446,9 @@ Section Sim.
       + rewrite Hclosed. split; [|exact Hinv']. cbn [mon_run]. rewrite Hstart.
         erewrite mon_run_app by (apply run_fresh; [reflexivity|apply fresh_repeat]).
         destruct cok; cbn [negb mon_run].
-        * rewrite step_connect_last by reflexivity. cbn [ms_tcp ms_ntx ms_watch ms_stopped].
-          rewrite step_gsn_last by reflexivity. rewrite step_close_last by (cbn; auto; discriminate). reflexivity.
+        * cbn [app mon_run]. rewrite step_connect_last by reflexivity. cbn [ms_tcp ms_ntx ms_watch ms_stopped].
+          rewrite run_gsn_opt_last by reflexivity. cbn [mon_run].
+          rewrite step_close_last by (cbn; auto; discriminate). reflexivity.
         * assert (mon_step cfg (mkmon (l ++ [mkms false PFresh 0 0 false]) false) (EConnect (length l) false)
                   = Accept (mkmon (l ++ [mkms false PFresh 0 0 false]) false)) as ->.
           { unfold mon_step, on_sock. cbn [mn_destroyed mn_socks]. rewrite nth_error_last. reflexivity. }
@@ -1060,7 +1069,7 @@ Qed.
 (* ------------------------------------------------------------------------------------ *)
 (* Non-vacuity                                                                           *)
 (* ------------------------------------------------------------------------------------ *)
-Definition ex_cfg : mcfg := mkcfg 2 true false true false false true.
+Definition ex_cfg : mcfg := mkcfg 2 true false true false false true true true true.
 Definition ex_env_ok : open_env := mkoe true SrOk SrOk true false 1 CnOk true.
 Definition ex_env_bindfail : open_env := mkoe true SrNosys SrOk false false 0 CnOk true.
 Definition ex_acts : list action :=
